@@ -188,16 +188,16 @@ Qed.
 
 (* ---- item sequences ---- *)
 Lemma items_sim items : forall st0 st, forallb (item_ok chk) items = true ->
-  relS sim st0 st (render_items isf None items st0) (render_items isf (Some sty) items st).
+  relS (simE isf sty chk) st0 st (render_items isf None items st0) (render_items isf (Some sty) items st).
 Proof.
   induction items as [|i r IH]; intros st0 st H.
-  - apply relS_ret. constructor.
+  - apply relS_ret. apply simE_nil.
   - cbn [forallb] in H. apply andb_prop in H. destruct H as [Hi Hr]. destruct i as [s|c t|c t]; cbn [render_items].
-    + eapply relS_bind; [apply IH, Hr|]. intros ai ap stb Hs. apply relS_ret. apply sim_ktxt, Hs.
+    + eapply relS_bind; [apply IH, Hr|]. intros ai ap stb Hs. apply relS_ret. apply simE_ktxt, Hs.
     + eapply relS_bind; [apply sim_term, Hi|]. intros ai ap stb Hs.
-      eapply relS_bind; [apply IH, Hr|]. intros bi bp stc Hs2. apply relS_ret. eapply sim_app; eassumption.
+      eapply relS_bind; [apply IH, Hr|]. intros bi bp stc Hs2. apply relS_ret. eapply simE_app; eassumption.
     + eapply relS_bind; [apply sim_term, Hi|]. intros ai ap stb Hs.
-      eapply relS_bind; [apply IH, Hr|]. intros bi bp stc Hs2. apply relS_ret. eapply sim_app; eassumption.
+      eapply relS_bind; [apply IH, Hr|]. intros bi bp stc Hs2. apply relS_ret. eapply simE_app; eassumption.
 Qed.
 
 End Facts.
@@ -214,11 +214,24 @@ Proof.
   destruct Hpi as [l [t [-> [Hc R]]]]. rewrite R, IH. cbn [map by_value]. rewrite (lit_exact_value _ _ Hc). reflexivity.
 Qed.
 
+(* ---- the sign-protecting parentheses are neither placeholders nor literals ---- *)
+Lemma autos_unguard l : autos (unguard l) = autos l.
+Proof. induction l as [|t r IH]; [reflexivity|]. destruct t; cbn; fold (unguard r); rewrite ?IH; reflexivity. Qed.
+Lemma count_auto_unguard l : count_auto (unguard l) = count_auto l.
+Proof. unfold count_auto. rewrite autos_unguard. reflexivity. Qed.
+Lemma count_lit_unguard l : count_lit (unguard l) = count_lit l.
+Proof. unfold count_lit. induction l as [|t r IH]; [reflexivity|]. destruct t; cbn; fold (unguard r); rewrite ?IH; reflexivity. Qed.
+Lemma flatten_unguard_noguard l : forallb (fun t => negb (is_guard t)) l = true -> unguard l = l.
+Proof.
+  induction l as [|t r IH]; [reflexivity|]. cbn [forallb]. intros H. apply andb_prop in H. destruct H as [Ht Hr].
+  cbn [unguard filter]. rewrite Ht. fold (unguard r). rewrite (IH Hr). reflexivity.
+Qed.
+
 (* ---- statements ---- *)
 Definition outcome_rel (isf : string -> bool) (chk : lit -> bool) (sty : style) (ri rp : tres) : Prop :=
   match ri, rp with
   | Ok (ti, _), Ok (tp, st') =>
-      bookkeeping sty [] tp st' /\ aligned isf chk sty st' tp ti /\ count_lit ti = count_auto tp + count_lit tp
+      bookkeeping sty [] tp st' /\ aligned isf chk sty st' (unguard tp) (unguard ti) /\ count_lit ti = count_auto tp + count_lit tp
   | Err e, Err e' => e = e'
   | _, _ => False
   end.
@@ -228,12 +241,13 @@ Theorem items_outcome isf chk sty items : forallb (item_ok chk) items = true ->
 Proof.
   intros H. pose proof (items_sim isf sty chk items [] [] H) as R. unfold relS in R. unfold outcome_rel.
   destruct (render_items isf None items []) as [[ti s0]|e], (render_items isf (Some sty) items []) as [[tp st']|e']; try contradiction; [|exact R].
-  destruct R as [_ S]. split; [|split].
-  - apply (sim_bookkeeping isf sty chk [] st' tp ti S). reflexivity.
-  - apply (sim_aligned isf sty chk [] st' tp ti S (fresh_nil sty) st').
+  destruct R as [_ [S _]]. split; [|split].
+  - pose proof (sim_bookkeeping isf sty chk [] st' _ _ S (fresh_nil sty)) as B. unfold bookkeeping in *.
+    rewrite !autos_unguard, !count_auto_unguard in B. exact B.
+  - apply (sim_aligned isf sty chk [] st' _ _ S (fresh_nil sty) st').
     + destruct (sim_shape isf sty chk _ _ _ _ S (fresh_nil sty)) as [F _]. exact F.
     + exists []. rewrite app_nil_r. reflexivity.
-  - apply (sim_count_lit isf sty chk _ _ _ _ S).
+  - pose proof (sim_count_lit isf sty chk _ _ _ _ S) as C. rewrite !count_lit_unguard, count_auto_unguard in C. exact C.
 Qed.
 
 Theorem term_outcome isf chk sty c t : vals_ok chk (truthy_ostr (sq c)) t = true ->
